@@ -398,7 +398,8 @@ func (w *World) checkAdmission(st *SentTx, outcome string) {
 		w.violate("C10", "undecodable-admitted", "undecodable", "an undecodable transaction was admitted to the mempool (%s)", st.Label)
 		return
 	}
-	if ok, why := w.admissible(tx, w.view().Relayer.Relayer.Proposer, w.Cmt.Height+1, false, false); !ok {
+	// CheckTx judges the timeout against the last committed height (the SDK's semantics)
+	if ok, why := w.admissible(tx, w.view().Relayer.Relayer.Proposer, w.Cmt.Height, false, false); !ok {
 		w.violate("C10", "inadmissible-tx-in-mempool", why, "a transaction was admitted to the mempool although: %s (%s)", why, st.Label)
 	}
 }
